@@ -39,6 +39,10 @@ def step (d : D) (toks : List String) : D × String :=
   | ["rankreset"] => run d .rankReset
   | ["activate", v, now] => match nat? v, int? now with | some v, some now => run d (.msgActivate v now) | _, _ => (d, "bad-op")
   | ["jail", v, now] => match nat? v, int? now with | some v, some now => run d (.jail v now) | _, _ => (d, "bad-op")
+  | ["evidence", v, now, known, stale] =>
+    match nat? v, int? now with
+    | some v, some now => run d (.evidence v now (known == "1") (stale == "1"))
+    | _, _ => (d, "bad-op")
   | ["unjail", v, now] => match nat? v, int? now with | some v, some now => run d (.unjail v now) | _, _ => (d, "bad-op")
   | ["sig", v, sg, now] =>
     match nat? v, parse01 sg, int? now with
